@@ -1,6 +1,7 @@
 package main
 
 import (
+	"fmt"
 	"math/rand"
 	"reflect"
 	"sync"
@@ -203,6 +204,10 @@ func randomEdit(r *rand.Rand, n dom.Node) string {
 		}
 	}
 	lb := lbs[i-len(cbs)]
+	if lb.Size() > 0 && r.Intn(4) == 0 {
+		lb.MustSet(uint(r.Intn(lb.Size())), dom.LeafNode(400+r.Intn(100)))
+		return "MustSet"
+	}
 	switch r.Intn(3) {
 	case 0:
 		lb.Append(dom.LeafNode(200 + r.Intn(100)))
@@ -252,6 +257,64 @@ func c05Clone(r *rand.Rand, a any, editClone bool) Case {
 		Coq: "CClone " + gNode(a) + " " + gNode(got), Fail: fail, Nontrivial: sizeOf(a) > 2}
 }
 
+// Equals answers from the CURRENT content of both operands: read both (Equals both ways, accessors),
+// edit one of them in place, compare again — against the plain views taken after the edit
+func c05EditEquals(r *rand.Rand, a any) Case {
+	x, y := nodeVia(a, r.Intn(3)), nodeVia(a, r.Intn(3))
+	var fail []string
+	var edits []string
+	pn := guard(func() {
+		_, _ = x.Equals(y), y.Equals(x)
+		if l, ok := y.(dom.List); ok {
+			_, _ = l.Items(), l.AsSlice()
+		}
+		for i, k := 0, 1+r.Intn(6); i < k; i++ {
+			edits = append(edits, randomEdit(r, y))
+			_ = nodeToAny(y) // reads in between
+			px, py := nodeToAny(x), nodeToAny(y)
+			want := kindOf(px) == kindOf(py) && reflect.DeepEqual(px, py)
+			if x.Equals(y) != want || y.Equals(x) != want {
+				fail = append(fail, fmt.Sprintf("after edits %v: x.Equals(y)=%v y.Equals(x)=%v, deepEqual(plain)=%v", edits, x.Equals(y), y.Equals(x), want))
+				return
+			}
+		}
+	})
+	if pn != "" {
+		fail = append(fail, "panic: "+pn)
+	}
+	return Case{Kind: "edit-equals", Desc: map[string]any{"a": a, "edits": edits}, Fail: fail, Nontrivial: len(edits) >= 2, Key: fmt.Sprint(a, edits)}
+}
+
+// a clone shares no state with its original — also when the original holds sealed (read-only)
+// views of builders that are edited afterwards
+func c05CloneSealed(r *rand.Rand, a any, b any) Case {
+	inner := anyToNode(map[string]any{"in": b, "l": []any{b, 1}})
+	innerL := dom.ListNode(dom.LeafNode(1), anyToNode(b))
+	parent := anyToContainer(map[string]any{"own": a})
+	parent.AddValue("sealedC", inner.(dom.ContainerBuilder).Seal())
+	parent.AddValue("sealedL", innerL.Seal())
+	parent.AddList("lst").Append(inner.(dom.ContainerBuilder).Seal())
+	var fail []string
+	var edits []string
+	pn := guard(func() {
+		cl := parent.Clone()
+		before := nodeToAny(cl)
+		if !cl.Equals(parent) || !parent.Equals(cl) {
+			fail = append(fail, "clone does not equal its original")
+		}
+		for i := 0; i < 6; i++ {
+			edits = append(edits, randomEdit(r, inner), randomEdit(r, innerL))
+		}
+		if !reflect.DeepEqual(nodeToAny(cl), before) {
+			fail = append(fail, "editing (through its builder) a sealed node held by the original changed the clone")
+		}
+	})
+	if pn != "" {
+		fail = append(fail, "panic: "+pn)
+	}
+	return Case{Kind: "clone-sealed", Desc: map[string]any{"a": a, "b": b, "edits": edits}, Fail: fail, Nontrivial: true, Key: fmt.Sprint(a, b, edits)}
+}
+
 // mutate a plain value by one edit (for "one-edit apart" pairs)
 func mutateVal(r *rand.Rand, v any, o genOpts) any {
 	switch x := v.(type) {
@@ -291,7 +354,7 @@ func mutateVal(r *rand.Rand, v any, o genOpts) any {
 func init() {
 	register(&Prop{
 		ID:   "C05",
-		Rule: "kinds: equals (exhaustive ordered pairs of all nodes with <= 2 (quick) / <= 3 (thorough) nodes over keys {a,b} and scalars {null,1,\"x\"}, then random pairs: equal / one-edit apart / unrelated; every operand built along one of four routes: builder API, decoder (FromMap), Clone, sealed read-only view; a third of the random documents use odd member names: dots, slashes, blanks, the empty key), trans (triples), nil, sameas, clone (clone then 1-10 random in-place edits of the original or of the clone; the other side must not change). Non-trivial: same-kind unequal composite pair; clone of a document with > 2 nodes. Distinct by Gallina term.",
+		Rule: "kinds: equals (exhaustive ordered pairs of all nodes with <= 2 (quick) / <= 3 (thorough) nodes over keys {a,b} and scalars {null,1,\"x\"}, then random pairs: equal / one-edit apart / unrelated; every operand built along one of four routes: builder API, decoder (FromMap), Clone, sealed read-only view; a third of the random documents use odd member names: dots, slashes, blanks, the empty key), trans (triples), nil, sameas, edit-equals (Equals re-evaluated against the plain views after every one of 1-6 in-place edits, incl. MustSet, of one operand that has been read before), clone-sealed (the original holds sealed views of builders that are edited after cloning), clone (clone then 1-10 random in-place edits of the original or of the clone; the other side must not change). Non-trivial: same-kind unequal composite pair; clone of a document with > 2 nodes. Distinct by Gallina term.",
 		Corpus: func() []Case {
 			return []Case{
 				c05Eq(map[string]any{"a": 1}, map[string]any{"a": 1, "b": 2}), // pinned-tree defect
@@ -336,6 +399,13 @@ func init() {
 				return c05Nil(a)
 			case 6:
 				return c05SameVia(a, genVal(r, o, 1, false), r.Intn(4), r.Intn(4))
+			case 7:
+				if r.Intn(2) == 0 {
+					return c05EditEquals(r, genVal(r, o, 1, true))
+				}
+				return c05EditEquals(r, genDoc(r, o))
+			case 8:
+				return c05CloneSealed(r, genDoc(r, o), genVal(r, o, 2, false))
 			default:
 				return c05Clone(r, genDoc(r, o), r.Intn(2) == 0)
 			}
